@@ -275,3 +275,53 @@ func H_C11_set_twice() {
 	}
 	verifReach("end")
 }
+
+// Trees whose lists were produced by NewListOf / SubList / Concat: several slots (of one list, or of a list
+// and the list derived from it) may then hold one shared scalar wrapper. A leaf write must still change
+// exactly the addressed slot.
+func H_C11_set_shared_scalars() {
+	verifBound("PATHSEG_SHARED", 2)
+	x, y := nondetInt(), nondetInt()
+	s := hBytesStr(1)
+	a := NewListOf(x, 3)
+	b := NewList(y, x)
+	c := b.SubList(0, 0)
+	d := a.Concat(b)
+	e := NewListOf(s, 2)
+	rootIsList := nondetIntRange(0, 1) == 1
+	var root any
+	if rootIsList {
+		root = NewList(a, b, c, d, e)
+	} else {
+		root = NewObject("a", a, "b", b, "c", c, "d", d, "e", e)
+	}
+	var segs []hSeg
+	i := nondetIntRange(0, 4)
+	j := nondetIntRange(0, 2)
+	if rootIsList {
+		segs = []hSeg{{sigil: '#', idx: i, text: string([]byte{byte('0' + i)}), num: true}}
+	} else {
+		k := string([]byte{byte('a' + i)})
+		segs = []hSeg{{sigil: '.', key: k, text: k}}
+	}
+	segs = append(segs, hSeg{sigil: '#', idx: j, text: string([]byte{byte('0' + j)}), num: true})
+	p := hPathString(segs)
+	var v any
+	var vm mval
+	if nondetIntRange(0, 1) == 0 {
+		z := nondetInt()
+		v, vm = z, mval{kind: TypeInt, i: z}
+	} else {
+		z := hBytesStr(1)
+		v, vm = z, mval{kind: TypeString, s: z}
+	}
+	before := hSnapAny(root)
+	want := hRefSet(before, segs, vm)
+	_, panicked := hSetTFAny(root, p, v)
+	verifAssert(!panicked, "SetTF on a well-formed path succeeds")
+	if panicked {
+		return
+	}
+	verifAssert(hExact(want, hSnapAny(root)), "after SetTF the tree equals the reference: addressed slot = v, missing/wrong-kind intermediates replaced, lists padded with nil, everything else unchanged")
+	verifReach("end")
+}
